@@ -240,6 +240,7 @@ type runner struct {
 	idpP string
 	dump bool
 	pool *cookiePool
+	alt  map[string]string // wrong HMAC keys by sig-variant name
 }
 
 type sigSet struct {
@@ -286,10 +287,10 @@ func (rn *runner) genSigned(r *rand.Rand, base int64, modeA bool, ti int) *sigSe
 		case 0: // vary the timestamp, keep the signature valid for it
 			tsIdx = r.Intn(len(tsVariants))
 		case 1: // vary the signature, keep the timestamp fresh
-			sigVar = sigVariants[r.Intn(len(sigVariants))]
+			sigVar = pickSigVariant(r)
 		default:
 			tsIdx = r.Intn(len(tsVariants))
-			sigVar = sigVariants[r.Intn(len(sigVariants))]
+			sigVar = pickSigVariant(r)
 		}
 	}
 	tsStr := tsVariants[tsIdx].f(base)
@@ -306,7 +307,7 @@ func (rn *runner) genSigned(r *rand.Rand, base int64, modeA bool, ti int) *sigSe
 		otherTS = fmt.Sprint(base - 7)
 	}
 	sign := func(u string) string {
-		return makeSig(r, sigVar, rn.as.ClientSecret, rn.as.ClientID, u, tsStr, canon, goodB, otherTS)
+		return makeSig(r, sigVar, rn.as.ClientSecret, rn.alt, u, tsStr, canon, goodB, otherTS)
 	}
 
 	dups := []string{"single", "single", "single", "single", "single", "single",
@@ -325,9 +326,9 @@ func (rn *runner) genSigned(r *rand.Rand, base int64, modeA bool, ti int) *sigSe
 		ss.tss = []string{tsStr}
 		switch ss.dup {
 		case "dupsig-bad-first":
-			ss.sigs = []string{makeSig(r, "garbage", "", "", "", "", "", "", ""), ss.sigs[0]}
+			ss.sigs = []string{makeSig(r, "garbage", "", nil, "", "", "", "", ""), ss.sigs[0]}
 		case "dupsig-good-first":
-			ss.sigs = []string{ss.sigs[0], makeSig(r, "garbage", "", "", "", "", "", "", "")}
+			ss.sigs = []string{ss.sigs[0], makeSig(r, "garbage", "", nil, "", "", "", "", "")}
 		case "dupts-stale-first":
 			ss.tss = []string{fmt.Sprint(base - 900), tsStr}
 		case "dupts-fresh-first":
@@ -361,6 +362,14 @@ func (rn *runner) genSigned(r *rand.Rand, base int64, modeA bool, ti int) *sigSe
 		ss.pairs = append(ss.pairs, kv{K: "ts", V: t})
 	}
 	return ss
+}
+
+// pickSigVariant: half of the sweeps use a well-formed HMAC under one of the other specific keys.
+func pickSigVariant(r *rand.Rand) string {
+	if r.Intn(2) == 0 {
+		return keyVariants[r.Intn(len(keyVariants))]
+	}
+	return sigVariants[r.Intn(len(sigVariants))]
 }
 
 // usedURI tells which supplied redirect URI a Location was built from (by marker), -1 when unknown.
@@ -646,6 +655,14 @@ func (rn *runner) observe(kc *kase, rs *sut.Resp, extra string) bool {
 	return true
 }
 
+// sigTag names the wrong key in a signature when the request's sig was a well-formed HMAC under it.
+func sigTag(ss *sigSet, why string) string {
+	if why == "bad-signature" && strings.HasPrefix(ss.sigVar, "hmac-under-") {
+		return " sig=" + ss.sigVar
+	}
+	return ""
+}
+
 // verdict2 applies the signature / freshness clause to a response of a signed endpoint.
 // kind names the action a 3xx stands for ("code-redirect", "sign-out-redirect", "idp-login").
 func (rn *runner) verdict2(i int, endpoint, kind string, acted bool, loc string, ss *sigSet, base int64, rs *sut.Resp, kc kase) {
@@ -664,7 +681,7 @@ func (rn *runner) verdict2(i int, endpoint, kind string, acted bool, loc string,
 		}
 		switch st {
 		case legitNo:
-			rep.Violate(stream, i, fmt.Sprintf("%s-without-valid-signature %s reason=%s", kind, endpoint, why),
+			rep.Violate(stream, i, fmt.Sprintf("%s-without-valid-signature %s reason=%s%s", kind, endpoint, why, sigTag(ss, why)),
 				fmt.Sprintf("%s performed a %s although the harness's own HMAC/freshness check rejects every (redirect_uri, sig, ts) of the request (%s; sig variant %s, ts variant %s, dup %s)", endpoint, kind, why, ss.sigVar, ss.tsVar, ss.dup), kc)
 		case legitDontCare:
 			rep.Count("dontcare_"+why+"_accepted", 1)
@@ -677,7 +694,7 @@ func (rn *runner) verdict2(i int, endpoint, kind string, acted bool, loc string,
 		if rs.Status >= 400 {
 			rep.Count("error_pages_for_unsigned", 1)
 		} else {
-			rep.Violate(stream, i, fmt.Sprintf("no-error-page %s reason=%s", endpoint, anyWhy),
+			rep.Violate(stream, i, fmt.Sprintf("no-error-page %s reason=%s%s", endpoint, anyWhy, sigTag(ss, anyWhy)),
 				fmt.Sprintf("%s answered %d (not an error page) although no (redirect_uri, sig, ts) of the request passes the harness's HMAC/freshness check (%s; sig variant %s, ts variant %s)", endpoint, rs.Status, anyWhy, ss.sigVar, ss.tsVar), kc)
 		}
 	} else if anySt == legitDontCare && rs.Status >= 400 {
@@ -1148,7 +1165,7 @@ func readerSelfTest() []string {
 func TestProp(t *testing.T) {
 	env := vh.GetEnv()
 	rep := vh.NewReport("C07", "exploration")
-	rep.Rule("cases walk (stride) over endpoint{sign_in,sign_out,start,callback,start->callback->sign_in flow, forged-state callback->sign_in flow, start->tampered state->callback->sign_in flow (the last three judged as a whole against what the client supplied)} x redirect-URI template (" + strconv.Itoa(len(templates)) + " parser-differential shapes in 11 families incl. look-alikes derived from the configured roots (every inner dot replaced/deleted)) x mode{valid signature, signature/timestamp sweep} per root-domain configuration {single, leading dot, multiple, nested, nested+multiple, three-label, two-label public suffix, five-label, regexp metacharacter in the configured string, upper-case}; signature variant (18), timestamp variant (30), parameter duplication (9), placement (query/body), cookie state, method and wire form are drawn per case. distinct = the tuple (endpoint, step, template, position, duplication, placement, sig variant, ts variant, cookie, method, wire, config kind) of every request sso answered")
+	rep.Rule("cases walk (stride) over endpoint{sign_in,sign_out,start,callback,start->callback->sign_in flow, forged-state callback->sign_in flow, start->tampered state->callback->sign_in flow (the last three judged as a whole against what the client supplied)} x redirect-URI template (" + strconv.Itoa(len(templates)) + " parser-differential shapes in 11 families incl. look-alikes derived from the configured roots (every inner dot replaced/deleted)) x mode{valid signature, signature/timestamp sweep} per root-domain configuration {single, leading dot, multiple, nested, nested+multiple, three-label, two-label public suffix, five-label, regexp metacharacter in the configured string, upper-case}; signature variant (41: encodings, mismatches, other hashes, and well-formed HMACs under 21 other specific keys), timestamp variant (30), parameter duplication (9), placement (query/body), cookie state, method and wire form are drawn per case. distinct = the tuple (endpoint, step, template, position, duplication, placement, sig variant, ts variant, cookie, method, wire, config kind) of every request sso answered")
 	rep.Assume("the fake IdP answers as scripted; Go's net/http client hands the Location header through unmodified (apart from trimming optional whitespace)")
 	rep.Assume("timestamps are generated at fixed offsets (>= 60 s away from the five-minute edge) from the instant the case is built; a request takes far less than the 10 s guard band")
 	rep.Assume("future timestamps, hosts with non-ASCII characters whose IDNA mapping decides membership, and URL schemes are don't-cares (counted, not judged)")
@@ -1191,7 +1208,7 @@ func TestProp(t *testing.T) {
 		return -1
 	}(), func(ci int) {
 		cfg := genConfig(env.Seed, ci)
-		as, err := sut.NewAuthStack(sut.AuthOpts{ProxyRootDomains: cfg.Roots, Host: "sso-auth." + cfg.raw[0]})
+		as, err := sut.NewAuthStack(sut.AuthOpts{ProxyRootDomains: cfg.Roots, Host: "sso-auth." + cfg.raw[0], ClientSecret: "Proxy-Client-Secret-7Qz"})
 		if err != nil {
 			rep.Inconclusive("authenticator stack did not start: " + err.Error())
 			return
@@ -1202,6 +1219,7 @@ func TestProp(t *testing.T) {
 		if k := strings.LastIndexByte(hp, ':'); k >= 0 {
 			rn.idpH, rn.idpP = hp[:k], hp[k+1:]
 		}
+		rn.alt = altKeys(as.ClientSecret, as.ClientID, as.IdPClientID, as.IdPSecret, as.Cfg.SessionConfig.CookieConfig.Secret, as.Cfg.SessionConfig.Key)
 		rn.buildPool()
 		rep.SetAdd("root_domain_configs", strings.Join(cfg.Roots, ","))
 		lo := ci * perConfig
